@@ -88,7 +88,7 @@ func init() {
 			for _, bin := range []string{"jd-v2", "jd-top"} {
 				for _, t := range c12CLITargets {
 					for _, p := range c12CLIPatches {
-						for _, how := range []string{"file", "stdin", "yaml-file"} {
+						for _, how := range []string{"file", "stdin", "yaml-file", "in-place"} {
 							e.Emit(engine.Case{Kind: "c12cli:" + bin, Leg: "cli/" + bin, A: t, B: p, X: how})
 						}
 					}
@@ -165,7 +165,16 @@ func runC12CLI(c *engine.Case) engine.Result {
 	} else {
 		args = append(args, cli.WriteFile(dir, "target.json", c.A))
 	}
+	if c.X == "in-place" {
+		// jd -p -f merge -o TARGET PATCH TARGET: the target is read before it is overwritten
+		tf := args[len(args)-1]
+		args = append([]string{"-p", "-f", "merge", "-o", tf}, fp, tf)
+	}
 	out := cli.Run(dir, cli.Bin(bin), args, stdin)
+	if c.X == "in-place" && out.Exit == 0 {
+		b, _ := os.ReadFile(args[len(args)-1])
+		out.Stdout = string(b)
+	}
 	clip := func(s string) string {
 		if len(s) > 200 {
 			return s[:200] + "..."
